@@ -195,6 +195,70 @@ def validate_trace(trace_path, module="World_Trace.tla", cfg="World_Trace.cfg", 
     return v[-1]["n"], v[-1]["viol"]
 
 
+def _runs_of(path):
+    """split a trace file into per-script runs: [(tid, [lines])]; a run starts at a Reset
+    event (world, save/load domains) or is a single line (one event per script)"""
+    runs = []
+    multi = False
+    with open(path) as f:
+        for line in f:
+            if not line.strip():
+                continue
+            try:
+                e = json.loads(line)
+            except Exception:
+                continue
+            if e.get("op") == "Reset":
+                multi = True
+                runs.append((e["cfg"]["tid"] if "cfg" in e else e.get("tid"), [line]))
+            elif multi and runs:
+                runs[-1][1].append(line)
+            else:
+                runs.append((e.get("tid"), [line]))
+    return runs
+
+
+def isolate_uninterpretable(tp, module, cfg, err, limit=3):
+    runs = _runs_of(tp)
+    n_total = 0
+    viol = []
+    bad = []
+
+    def check(rs, depth):
+        nonlocal n_total
+        if not rs or len(bad) >= limit:
+            return
+        part = tp + ".iso%d_%d" % (depth, len(rs))
+        with open(part, "w") as f:
+            for _, ls in rs:
+                f.writelines(ls)
+        try:
+            n, v = validate_trace(part, module, cfg)
+            n_total += n
+            viol.extend(v)
+        except ToolError as e2:
+            if len(rs) == 1:
+                bad.append((rs[0][0], str(e2)))
+            else:
+                mid = len(rs) // 2
+                check(rs[:mid], depth + 1)
+                check(rs[mid:], depth + 1)
+        finally:
+            try:
+                os.remove(part)
+            except OSError:
+                pass
+
+    check(runs, 0)
+    if not bad:
+        raise ToolError(err)
+    for tid, msg in bad:
+        m = re.search(r"(Attempted[^\n]*|The exception was[^\n]*\n[^\n]*)", msg)
+        viol.append({"tid": tid, "line": 0, "p": "*", "m": "the recorded execution cannot be interpreted by the specification (TLC evaluation error)",
+                     "d": (m.group(1) if m else msg[-300:]).replace("\n", " ")[:400], "trace_file": tp})
+    return n_total, viol
+
+
 def split_file_by_scripts(lines_iter, nchunks):
     chunks = [[] for _ in range(nchunks)]
     for i, l in enumerate(lines_iter):
@@ -274,7 +338,15 @@ def exec_and_validate(domain, scripts, workdir, module, cfg, events_per_chunk=15
                     pp = tp + ".part%d" % k
                     if os.path.exists(pp):
                         out.write(open(pp).read())
-        n, viol = validate_trace(tp, module, cfg) if os.path.getsize(tp) > 0 else (0, [])
+        if os.path.getsize(tp) == 0:
+            return 0, crashes, tp
+        try:
+            n, viol = validate_trace(tp, module, cfg)
+        except ToolError as e:
+            # TLC could not evaluate the specification on this trace.  Isolate the script(s)
+            # responsible: a recorded execution on which the property-level specification is
+            # not even defined is outside what it allows (on the unchanged tree this never happens).
+            n, viol = isolate_uninterpretable(tp, module, cfg, str(e))
         return n, viol + crashes, tp
 
     n_events = 0
